@@ -63,9 +63,11 @@ func NewLocalIPRequest() *LocalIPRequest {
 
 type LocalIPRequest struct {
 	NetworkInterfaceID string
-	LocalIPType        string
-	IPv4               netip.Addr
-	IPv6               netip.Addr
+	// NetworkInterfaceMAC names the eni when only its mac is known (legacy record)
+	NetworkInterfaceMAC string
+	LocalIPType         string
+	IPv4                netip.Addr
+	IPv6                netip.Addr
 
 	NoCache bool // do not use cached ip
 
@@ -400,6 +402,9 @@ func (l *Local) Allocate(ctx context.Context, cni *daemon.CNI, request ResourceR
 	}
 
 	if localIPRequest.NetworkInterfaceID != "" && l.eni != nil && l.eni.ID != localIPRequest.NetworkInterfaceID {
+		return nil, []Trace{{Condition: NetworkInterfaceMismatch}}
+	}
+	if localIPRequest.NetworkInterfaceID == "" && localIPRequest.NetworkInterfaceMAC != "" && l.eni != nil && l.eni.MAC != localIPRequest.NetworkInterfaceMAC {
 		return nil, []Trace{{Condition: NetworkInterfaceMismatch}}
 	}
 
